@@ -27,13 +27,29 @@ theorem mem_sortBlocks (x : OptBlock) : ∀ l, x ∈ sortBlocks l ↔ x ∈ l
   | [] => by simp [sortBlocks]
   | b :: r => by simp [sortBlocks, mem_insertBlock, mem_sortBlocks x r]
 
+/-- **explicitly enabled, whatever `sort.Slice` does with ties.** `sort.Slice` is not a stable sort beyond 12
+    elements, so which of several equally long listener addresses comes first is unspecified; the statement
+    does not depend on it: for ANY order that holds exactly the configured blocks, a server logs credentials
+    only if a block that applies to it contains `log_credentials`. -/
+theorem credentials_only_when_enabled_any_order (blocks order : List OptBlock) (s : Srv)
+    (hperm : ∀ x, x ∈ order ↔ x ∈ blocks) (h : effectiveCreds (applyOptsOrder order s) = true) :
+    ∃ b ∈ blocks, blockApplies s b = true ∧ b.logCreds = true := by
+  unfold applyOptsOrder at h
+  cases hf : firstBlock order s with
+  | none => simp [hf, effectiveCreds] at h
+  | some b =>
+    refine ⟨b, (hperm b).mp (List.mem_of_find?_eq_some hf), List.find?_some hf, ?_⟩
+    cases hb : b.logCreds with
+    | true => rfl
+    | false => simp [hf, hb, effectiveCreds] at h
+
 /-- **explicitly enabled.** A server logs credentials only if the `servers` block chosen for it — the first one,
     longest listener address first, that has an empty listener address or one of the server's listen addresses —
     contains `log_credentials`. -/
 theorem credentials_only_when_explicitly_enabled (blocks : List OptBlock) (s : Srv)
     (h : effectiveCreds (applyOpts blocks s) = true) :
     ∃ b, firstBlock (sortBlocks blocks) s = some b ∧ b ∈ blocks ∧ blockApplies s b = true ∧ b.logCreds = true := by
-  unfold applyOpts at h
+  unfold applyOpts applyOptsOrder at h
   cases hf : firstBlock (sortBlocks blocks) s with
   | none => simp [hf, effectiveCreds] at h
   | some b =>
@@ -64,7 +80,7 @@ theorem credentials_enabled_per_listener (blocks : List OptBlock) (s : Srv)
 /-- and when the first applicable block asks for it, the flag is on even for a server without `log` -/
 theorem credentials_enabled_when_asked (blocks : List OptBlock) (s : Srv) (b : OptBlock)
     (hf : firstBlock (sortBlocks blocks) s = some b) (hb : b.logCreds = true) : applyOpts blocks s = (true, true) := by
-  simp [applyOpts, hf, hb]
+  simp [applyOpts, applyOptsOrder, hf, hb]
 
 /-! non-vacuity -/
 def exBlocks : List OptBlock := [⟨[], false⟩, ⟨str ":8001", true⟩, ⟨str "127.0.0.1:8002", false⟩]
